@@ -36,7 +36,24 @@ def import_real(file: str, qualname: str) -> Any:
 	return obj
 
 
+def _veq(a: Any, b: Any) -> bool:
+	"""Equality as the SMT reading has it: floats are compared as values of an uninterpreted sort, so NaN equals NaN; type-strict for int vs float vs bool inside unions."""
+	import math
+	if isinstance(a, float) and isinstance(b, float):
+		return (math.isnan(a) and math.isnan(b)) or a == b
+	if isinstance(a, (list, tuple)) and isinstance(b, (list, tuple)) and len(a) == len(b):
+		return type(a) is type(b) and all(_veq(x, y) for x, y in zip(a, b)) if not (isinstance(a, tuple) != isinstance(b, tuple)) else all(_veq(x, y) for x, y in zip(a, b))
+	return a == b
+
+
 class _OldRewriter(ast.NodeTransformer):
+	def visit_Compare(self, node: ast.Compare) -> Any:
+		self.generic_visit(node)
+		if len(node.ops) == 1 and isinstance(node.ops[0], (ast.Eq, ast.NotEq)):
+			call = ast.Call(ast.Name('__veq__', ast.Load()), [node.left, node.comparators[0]], [])
+			return call if isinstance(node.ops[0], ast.Eq) else ast.UnaryOp(ast.Not(), call)
+		return node
+
 	def visit_Call(self, node: ast.Call) -> Any:
 		self.generic_visit(node)
 		if isinstance(node.func, ast.Name) and node.func.id == 'old':
@@ -72,6 +89,7 @@ def eval_clause(text: str, ns: dict[str, Any], old_ns: dict[str, Any] | None = N
 	tree = ast.parse(text, mode='eval')
 	tree = ast.fix_missing_locations(_OldRewriter().visit(tree))
 	env = dict(ns)
+	env['__veq__'] = _veq
 	if old_ns is not None:
 		env['__old_eval__'] = lambda src: eval(src, dict(old_ns))
 	return eval(compile(tree, '<contract>', 'eval'), env)
